@@ -85,6 +85,9 @@ contract(AF + '.load_line_objects', props=['C17', 'C06', 'C05', 'C08'], blocks_o
                  'current_memzone': 'MemoryZone', 'line': 'str', 'lobj_list': 'list[LineObject]'},
          blocks={'line': dict(
              where='loop[0].body', locals={},
+             # (C08 uses this block only for "an include in an unselected branch loads nothing"; C05 / C06 not for that)
+             skip_for={'C08': ['block[line]/ensures[2]', 'block[line]/ensures[4]'],
+                       'C05': ['block[line]/ensures[3]', 'block[line]/ensures[4]'], 'C06': ['block[line]/ensures[3]']},
              requires=['cs_wf(condition_stack)', 'allocated(self._label_scope)', 'allocated(current_scope)',
                        'line_objects is not lobj_list', 'line_objects is not condition_stack._stack', 'allocated(line_objects)',
                        'scope_wf(current_scope)', 'scope_wf(self._label_scope)',
